@@ -29,6 +29,21 @@ const printSrcB = `package p
 func second() { helper(2) }
 `
 
+const printSrcC = `package p
+
+type point struct{ x, y int }
+
+func (p point) getX() int { return p.x }
+
+var origin = point{}
+`
+
+const printSrcD = `package p
+
+// width is top-secret.
+func width(p struct{ w int }) int { return p.w }
+`
+
 func parseFile(name, src string) *ast.File {
 	f, err := parser.ParseFile(fset, name, src, parser.SkipObjectResolution|parser.ParseComments)
 	if err != nil {
@@ -66,4 +81,18 @@ func H_C02_printfile() {
 		symx.Assert(strings.Contains(text, "/*line :1*/"), "-tiny positions carry no file name")
 	}
 	_ = printSrcB
+	// a file without any call expression and without comments: nothing to rewrite, but its
+	// name must still be hidden behind the empty //line directive
+	fileC := parseFile("/src/secret-dir/gamma-file.go", printSrcC)
+	outC, err := printFile(lpkg, fileC)
+	symx.Assert(err == nil, "printFile succeeds on a call-free file")
+	textC := string(append([]byte(nil), outC...))
+	symx.Assert(strings.HasPrefix(textC, "//line :1\n"), "a file without calls also defaults to an empty file name")
+	symx.Assert(!strings.Contains(textC, "gamma-file") && !strings.Contains(textC, "secret-dir"), "the name of a call-free file does not appear")
+	// and one without calls but with a doc comment
+	fileD := parseFile("/src/secret-dir/delta-file.go", printSrcD)
+	outD, err := printFile(lpkg, fileD)
+	symx.Assert(err == nil, "printFile succeeds on a call-free file with comments")
+	textD := string(append([]byte(nil), outD...))
+	symx.Assert(strings.HasPrefix(textD, "//line :1\n") && !strings.Contains(textD, "top-secret"), "a call-free file loses its comments and gets the empty file name")
 }
